@@ -191,7 +191,7 @@ def observe_channel(F, spec, P, cfg):
                     else:
                         if pending_reported != 0 or not r.identity:
                             status, why = bad('pending controller-6 value touched by a non-contributing input')
-            res.append((okey, (status, why, [scanners.describe_row(F, r) for r in rows][:2])))
+            res.append((okey, (status, why, [scanners.describe_row(F, r) for r in rows[:2]])))
     return res, org
 
 
